@@ -145,6 +145,9 @@ impl Directive {
             }
             Directive::Undef => {
                 if let DirectiveOps::OpList(values) = opts {
+                    if values.len() != 1 {
+                        bail!("Not allowed type of arguments for .{}, {}", self, point);
+                    }
                     if let Some(Operand::E(Expr::Ident(name))) = values.first() {
                         context.push_to_last((point, Item::Undef(name.clone())))
                     } else {
